@@ -177,6 +177,13 @@ package processors
 //@ ensures [others-untouched] forall(k, int, implies(0 <= k && k < len(properties) && !FuncByPtr(properties[k]) && !FuncByIface(properties[k]), properties[k].Injects == old(properties[k].Injects)), properties[k]) && forall(p, *component_definition.Property, implies(forall(k, int, implies(0 <= k && k < len(properties), properties[k] != p)), p.Injects == old(p.Injects)))
 //@ loop 1 invariant [bounds] 0 <= _done && _done <= len(properties) && DefInv(d.Registry)
 //@ loop 1 invariant [inputs-kept] forall(k, int, implies(0 <= k && k < len(properties), properties[k] == oldat(properties, k)))
+// intermediate steps of [func-candidates-sound]: first about the enumerated definitions, then about the appended tail
+//@ assert after call GetMetas: [enumerated-are-registered] forall(i, int, implies(0 <= i && i < len(dm), MetaOK(dm[i]) && d.Registry.DefDom[dm[i].Name()] && d.Registry.Def[dm[i].Name()] == dm[i]), dm[i])
+//@ assert after call GetMetas: [enumerated-pass-both-options] forall(i, int, implies(0 <= i && i < len(dm), call(typeOption, dm[i]) && call(funcOption, dm[i])), dm[i])
+//@ assert after call GetMetas: [enumerated-have-the-type] forall(i, int, implies(0 <= i && i < len(dm), ite(FuncByPtr(prop), RTypeOf(dm[i].Value) == TargetT(prop), RImplements(RTypeOf(dm[i].Value), TargetT(prop)))), dm[i])
+//@ assert after call GetMetas: [enumerated-have-the-method] forall(i, int, implies(0 <= i && i < len(dm), RHasMethod(RTypeOf(dm[i].Value), prop.TagVal)), dm[i])
+//@ assert after call append #2: [prefix-copied] forall(i, int, implies(0 <= i && i < len(prop.Injects), _result[i] == prop.Injects[i]), _result[i])
+//@ assert after call append #2: [appended-are-method-providers] len(_result) == len(prop.Injects) + len(dm) && forall(i, int, implies(len(prop.Injects) <= i && i < len(_result), MetaOK(_result[i]) && d.Registry.DefDom[_result[i].Name()] && d.Registry.Def[_result[i].Name()] == _result[i] && RHasMethod(RTypeOf(_result[i].Value), prop.TagVal) && ite(FuncByPtr(prop), RTypeOf(_result[i].Value) == TargetT(prop), RImplements(RTypeOf(_result[i].Value), TargetT(prop)))), _result[i])
 //@ loop 1 invariant [func-candidates-sound] forall(k, int, forall(i, int, implies(0 <= k && k < _done && (FuncByPtr(properties[k]) || FuncByIface(properties[k])) && len(old(properties[k].Injects)) <= i && i < len(properties[k].Injects), MetaOK(properties[k].Injects[i]) && d.Registry.DefDom[properties[k].Injects[i].Name()] && d.Registry.Def[properties[k].Injects[i].Name()] == properties[k].Injects[i] && RHasMethod(RTypeOf(properties[k].Injects[i].Value), properties[k].TagVal) && ite(FuncByPtr(properties[k]), RTypeOf(properties[k].Injects[i].Value) == TargetT(properties[k]), RImplements(RTypeOf(properties[k].Injects[i].Value), TargetT(properties[k])))), properties[k].Injects[i]), properties[k])
 //@ loop 1 invariant [earlier-candidates-kept] forall(k, int, forall(i, int, implies(0 <= k && k < _done && 0 <= i && i < len(old(properties[k].Injects)), len(properties[k].Injects) >= len(old(properties[k].Injects)) && properties[k].Injects[i] == oldat(old(properties[k].Injects), i)), properties[k].Injects[i]), properties[k])
 //@ loop 1 invariant [rest-untouched] forall(k, int, implies(_done <= k && k < len(properties), properties[k].Injects == old(properties[k].Injects)), properties[k])
@@ -417,17 +424,17 @@ package processors
 //@ ensures [never-fails] result == nil
 //@ ensures [component-memory-untouched] RMem == old(RMem)
 //@ assert before call SetProperties: [property-per-tagged-field] forall(i, int, implies(0 <= i && i < len(meta.Fields) && Tagged(d, meta.Fields[i]), 0 <= PropPos[i] && PropPos[i] < len(properties) && properties[PropPos[i]].Field == meta.Fields[i] && properties[PropPos[i]].Tag == d.Tag && properties[PropPos[i]].PropertyType == d.NodeType), meta.Fields[i])
-//@ assert before call SetProperties: [only-claimed-fields] forall(j, int, implies(0 <= j && j < len(properties), properties[j] != nil && 0 <= PropSrc[j] && PropSrc[j] < len(meta.Fields) && properties[j].Field == meta.Fields[PropSrc[j]] && (Tagged(d, meta.Fields[PropSrc[j]]) || d.ExtractHandler != nil)), properties[j])
+//@ assert before call SetProperties: [only-claimed-fields] forall(j, int, implies(0 <= j && j < len(properties), properties[j] != nil && 0 <= PropSrc[j] && PropSrc[j] < len(meta.Fields) && properties[j].Field == meta.Fields[PropSrc[j]] && (Tagged(d, meta.Fields[PropSrc[j]]) || d.ExtractHandler != nil)), properties[j], PropSrc[j])
 //@ assert before call SetProperties: [in-field-order] forall(a, int, forall(b, int, implies(0 <= a && a < b && b < len(properties), PropSrc[a] < PropSrc[b])))
 //@ ghost before call append #1: PropSrc = store(PropSrc, len(properties), _idx)
 //@ ghost before call append #1: PropPos = store(PropPos, _idx, len(properties))
 //@ ghost before call append #2: PropSrc = store(PropSrc, len(properties), _idx)
 //@ loop 1 invariant [bounds] 0 <= _done && _done <= len(meta.Fields) && FieldsInv(meta) && (backing(properties) == 0 || backing(properties) > old(top()))
 //@ loop 1 invariant [tagged-so-far] forall(i, int, implies(0 <= i && i < _done && Tagged(d, meta.Fields[i]), 0 <= PropPos[i] && PropPos[i] < len(properties) && properties[PropPos[i]].Field == meta.Fields[i] && properties[PropPos[i]].Tag == d.Tag && properties[PropPos[i]].PropertyType == d.NodeType), meta.Fields[i])
-//@ loop 1 invariant [claimed-so-far] forall(j, int, implies(0 <= j && j < len(properties), properties[j] != nil && fresh(properties[j]) && properties[j].args != nil && fresh(properties[j].args) && 0 <= PropSrc[j] && PropSrc[j] < _done && properties[j].Field == meta.Fields[PropSrc[j]] && (Tagged(d, meta.Fields[PropSrc[j]]) || d.ExtractHandler != nil)), properties[j])
+//@ loop 1 invariant [claimed-so-far] forall(j, int, implies(0 <= j && j < len(properties), properties[j] != nil && fresh(properties[j]) && properties[j].args != nil && fresh(properties[j].args) && 0 <= PropSrc[j] && PropSrc[j] < _done && properties[j].Field == meta.Fields[PropSrc[j]] && (Tagged(d, meta.Fields[PropSrc[j]]) || d.ExtractHandler != nil)), properties[j], PropSrc[j])
 //@ loop 1 invariant [ordered-so-far] forall(a, int, forall(b, int, implies(0 <= a && a < b && b < len(properties), PropSrc[a] < PropSrc[b])))
 //@ loop 1 invariant [older-maps-kept] oldmapskept(map[component_definition.ArgType][]string)
-//@ loop 2 invariant [kept] 0 <= _done && FieldsInv(meta) && forall(j, int, implies(0 <= j && j < len(properties), properties[j] != nil && properties[j].args != nil && fresh(properties[j].args) && 0 <= PropSrc[j] && PropSrc[j] < len(meta.Fields) && properties[j].Field == meta.Fields[PropSrc[j]] && (Tagged(d, meta.Fields[PropSrc[j]]) || d.ExtractHandler != nil)), properties[j])
+//@ loop 2 invariant [kept] 0 <= _done && FieldsInv(meta) && forall(j, int, implies(0 <= j && j < len(properties), properties[j] != nil && properties[j].args != nil && fresh(properties[j].args) && 0 <= PropSrc[j] && PropSrc[j] < len(meta.Fields) && properties[j].Field == meta.Fields[PropSrc[j]] && (Tagged(d, meta.Fields[PropSrc[j]]) || d.ExtractHandler != nil)), properties[j], PropSrc[j])
 //@ loop 2 invariant [tagged-kept] forall(i, int, implies(0 <= i && i < len(meta.Fields) && Tagged(d, meta.Fields[i]), 0 <= PropPos[i] && PropPos[i] < len(properties) && properties[PropPos[i]].Field == meta.Fields[i] && properties[PropPos[i]].Tag == d.Tag && properties[PropPos[i]].PropertyType == d.NodeType), meta.Fields[i])
 //@ loop 2 invariant [older-maps-kept] oldmapskept(map[component_definition.ArgType][]string)
 //@ loop 2 invariant [default-required-so-far] forall(j, int, implies(0 <= j && j < _done && d.Required, ArgIn(properties[j].args, component_definition.ArgRequired)), properties[j])
